@@ -1435,7 +1435,7 @@ def oracle(ctx, pym, Poly, results):
             # (b2) history: the same call once more on the same objects (the modules still hold whatever they keep between
             #      calls; the first call must have left everything as it found it) reports the same tuples
             r2 = run_fd(pym, sc, fd, _random.Random(1))
-            if r2['err'] != 0 or [tuple(map(str, t)) for t in r2['tuples']] != [tuple(map(str, t)) for t in r1['tuples']]:
+            if r2['err'] != 0 or [(cq(t[0]), F(t[1]), F(t[2]), F(t[3])) for t in r2['tuples']] != got_t:
                 bad('a second call on the same network reports the same tuples', 'history',
                     str(r1['tuples'])[:1500], str(r2['tuples'])[:1500])
             # (c)+(d): exact extrapolation of the numerical values to dx -> 0 (polynomials of degree <= 4); the seeds are
